@@ -412,6 +412,30 @@ func runC20(cx *CheckCtx) {
 		})
 		if cleanupFn == nil {
 			cx.violated("cleanup", "container.cleanupContainers", "the epoch tick no longer removes outdated size estimations", w.pos(m.Fn.Pos()))
+		} else {
+			// … at every tick: no normal return of the tick goes round the scan of the estimations (a way round
+			// that needs a non-nil read of a key nobody in the contract writes is not a way)
+			a := cx.run(m)
+			var del *Site
+			for _, s := range a.RealEffects() {
+				if s.Effect == "delete" && s.Args[1].Op == "iterval" && s.Args[1].Args[0].Op == "find" && keyFamily(s.Args[1].Args[0].Args[0]) == "cnr" {
+					del = s
+				}
+			}
+			if del != nil {
+				written := writtenFamilies(cx, "container")
+				okS, whyS := alwaysReached(a, del, func(es *CNF) bool {
+					for _, f := range a.lt.lits {
+						if f.Kind == KNil && f.A != nil && f.A.Op == "read" && len(f.A.Args) > 0 {
+							if fam := keyFamily(f.A.Args[0]); fam != "" && !written[fam] && a.holdsAt(es, -a.litNil(f.A)) {
+								return true
+							}
+						}
+					}
+					return false
+				})
+				cx.decide(okS, "cleanup", "container.NewEpoch/scan-always", "every tick that returns normally has scanned the estimations", "a tick can return normally without scanning the estimations ("+whyS+"): estimations that become older than the documented delta at such a tick stay readable", del.Where(w))
+			}
 		}
 	}
 	if fn := cleanupFn; fn != nil && len(fn.Params) == 2 {
@@ -629,15 +653,23 @@ func executedAtEveryExit(a *Analysis, sites ...*Site) bool {
 // loop. A filter added to such a loop (length of the rest of the key, a type
 // test, …) silently drops stored values from the answer.
 func checkCollectEvery(cx *CheckCtx) {
-	w := cx.W
-	roots := map[string][]string{
+	checkCollectEveryIn(cx, map[string][]string{
 		"reputation": {"Get", "GetByID", "ListByEpoch"},
 		"audit":      {"Get", "List", "ListByEpoch", "ListByCID", "ListByNode"},
 		"neofsid":    {"Key"},
 		"container":  {"GetContainerSize", "ListContainerSizes"},
+	}, 4)
+}
+
+func checkCollectEveryIn(cx *CheckCtx, roots map[string][]string, floor int) {
+	w := cx.W
+	var cns []string
+	for cn := range roots {
+		cns = append(cns, cn)
 	}
+	sort.Strings(cns)
 	n := 0
-	for _, cn := range []string{"audit", "container", "neofsid", "reputation"} {
+	for _, cn := range cns {
 		seen := map[*ssa.Function]bool{}
 		var work []*ssa.Function
 		for _, name := range roots[cn] {
@@ -691,8 +723,22 @@ func checkCollectEvery(cx *CheckCtx) {
 						case *ssa.MapUpdate:
 							acc = append(acc, blk)
 						case *ssa.Call:
-							if _, _, isApp := appendOf(x); isApp {
-								acc = append(acc, blk)
+							// an append that carries the answer round the loop: its base is a value of the loop
+							// header (the accumulator) or a cell outside the loop — not the construction of a key
+							// from a constant prefix inside one iteration
+							if base, _, isApp := appendOf(x); isApp {
+								carried := false
+								switch bv := base.(type) {
+								case *ssa.Phi:
+									carried = in[bv.Block()]
+								case *ssa.UnOp:
+									carried = true // a load of a cell (captured or spilled accumulator)
+								case *ssa.Parameter, *ssa.FreeVar:
+									carried = true
+								}
+								if carried {
+									acc = append(acc, blk)
+								}
 							}
 						}
 					}
@@ -756,5 +802,5 @@ func checkCollectEvery(cx *CheckCtx) {
 		}
 	}
 	cx.count("collecting_loops", n)
-	cx.floor("collecting_loops", 4)
+	cx.floor("collecting_loops", floor)
 }
